@@ -41,12 +41,13 @@ def _failing_theorem(path, out):
     return None, line
 
 
-def tie(tag, module_path, funcs, tmpl_name, theorems, imports=""):
+def tie(tag, module_path, funcs, tmpl_name, theorems, imports="", skip=()):
     """Generate build/PyLite_<pid>/<tag>.v from the current source and the template, compile it, and return
     [(theorem, ok, detail)].  The template is a sequence of sections introduced by
     `(* ---------- title ---------- *)`; when a proof fails, the section containing it is dropped and the
     file recompiled, so that every theorem is judged on its own (a theorem that needs a dropped one fails
-    too)."""
+    too).  `skip`: titles of sections of the templates that this tie does not need (they are reported by
+    another property and cost compile time); they are left out of the generated file."""
     d = os.path.join(core.BUILD, "PyLite_%d" % os.getpid())
     os.makedirs(d, exist_ok=True)
     path = os.path.join(d, tag + ".v")
@@ -68,6 +69,7 @@ def tie(tag, module_path, funcs, tmpl_name, theorems, imports=""):
     # split the template into sections
     pos = [m.start() for m in SECTION.finditer(tmpl)] + [len(tmpl)]
     sections = [tmpl[:pos[0]]] + [tmpl[pos[i]:pos[i + 1]] for i in range(len(pos) - 1)]
+    sections = [sec for sec in sections if not (SECTION.match(sec) and SECTION.match(sec).group(1) in skip)]
     head = HEAD % imports + "\n".join(defs[n] for n in funcs if n in defs) + "\n"
     failed = {}
     t0 = time.time()
@@ -405,7 +407,8 @@ def c13_obligations():
 
 
 BLOCKRED_FUNCS = ["BlockReduce._block_coordinates", "BlockReduce.filter"]
-BLOCKRED_THEOREMS = ["src_BlockReduce_block_coordinates_eq", "src_BlockReduce_filter_unweighted_eq"]
+BLOCKRED_THEOREMS = ["src_BlockReduce_block_coordinates_eq", "src_BlockReduce_filter_unweighted_eq",
+                     "src_BlockReduce_filter_weighted_eq"]
 BLOCKRED_IMPORTS = ("From Verde Require Import Lib.QList Model.BlockReduce Proofs.BlockReduceProofs Proofs.PyLiteBridge "
                     "Proofs.PyLiteBlocks.")
 BLOCKRED_SPEC = ("BlockReduceSrc", os.path.join("verde", "blockreduce.py"), BLOCKRED_FUNCS,
@@ -417,3 +420,36 @@ def blockreduce_obligations():
     BlockReduce.filter without weights against block_coords / block_data (C09)"""
     tag, mod_, funcs, tmpl, imports = BLOCKRED_SPEC
     return tie(tag, mod_, funcs, tmpl, BLOCKRED_THEOREMS, imports)
+
+
+BLOCKSPLIT_FUNCS = COORD_FUNCS + [(_BASE_UTILS, "check_coordinates"), (_BASE_UTILS, "n_1d_arrays"), "block_split"]
+BLOCKSPLIT_THEOREMS = ["src_block_split_eq", "block_split_model"]
+# sections of the coordinates template that block_split does not use (the slow shape_to_spacing proof, inside)
+BLOCKSPLIT_SKIP = ("shape_to_spacing", "inside (calls check_region)")
+BLOCKSPLIT_SPEC = ("BlockSplitSrc", os.path.join("verde", "coordinates.py"), BLOCKSPLIT_FUNCS,
+                   ["pylite_coordinates.v.tmpl", "pylite_blocksplit.v.tmpl"],
+                   COORD_IMPORTS + "\nFrom Verde Require Import Model.Blocks Proofs.PyLiteWeights Proofs.PyLiteGrid2.")
+
+
+def blocksplit_obligations():
+    """verde/coordinates.py block_split against Model/Blocks.v block_split (C08); the coordinates template comes
+    first because block_split calls get_region and grid_coordinates (their theorems are reported by C07 / C13)"""
+    tag, mod_, funcs, tmpl, imports = BLOCKSPLIT_SPEC
+    return tie(tag, mod_, funcs, tmpl, BLOCKSPLIT_THEOREMS, imports, skip=BLOCKSPLIT_SKIP)
+
+
+PROFILE_FUNCS = ["profile_coordinates"]
+PROFILE_THEOREMS = ["src_profile_coordinates_eq", "profile_code_model"]
+PROFILE_IMPORTS = "From Coq Require Import Field.\nFrom Verde Require Import Proofs.PyLiteBridge."
+PROFILE_SPEC = ("ProfileSrc", os.path.join("verde", "coordinates.py"), PROFILE_FUNCS, "pylite_profile.v.tmpl", PROFILE_IMPORTS)
+
+
+def profile_obligations():
+    """verde/coordinates.py profile_coordinates against Model/Coordinates.v profile_points / profile_dist2 (C07)"""
+    tag, mod_, funcs, tmpl, imports = PROFILE_SPEC
+    return tie(tag, mod_, funcs, tmpl, PROFILE_THEOREMS, imports)
+
+
+def c07_obligations():
+    """the coordinate functions of C07 plus profile_coordinates"""
+    return coord_obligations() + profile_obligations()
